@@ -166,7 +166,8 @@ AllocResult ==
   IF C = {} THEN <<0, 0>>
   ELSE LET pi == CHOOSE i \in C : \A j \in C : i <= j
            Z == {b \in 0..(pools[pi].nbits - 1) : b \notin pools[pi].bits}
-           b == IF Bug = "AllocHighestBit" THEN CHOOSE x \in Z : \A y \in Z : x >= y ELSE CHOOSE x \in Z : \A y \in Z : x <= y
+           ZR == {x \in Z : x <= pools[pi].e - pools[pi].st}     \* in-range clear bits
+           b == IF Bug = "AllocHighestBit" /\ ZR # {} THEN CHOOSE x \in ZR : \A y \in ZR : x >= y ELSE CHOOSE x \in Z : \A y \in Z : x <= y
        IN <<pi, b>>
 
 Alloc ==
